@@ -6,7 +6,7 @@ miss=0
 for d in seeded/*/; do
   name=$(basename "$d")
   prop=$(python3 -c "import json,sys;print(json.load(open('$d/meta.json'))['breaks_property'])")
-  out=$(tools/seedtest.sh "$d/patch.diff" "$prop" quick 2>&1); rc=$?
+  out=$(tools/seedtest.sh "/verif/${d}patch.diff" "$prop" quick 2>&1); rc=$?
   case $rc in
     1) echo "CAUGHT $name ($prop)";;
     0) echo "MISSED $name ($prop)"; miss=$((miss+1));;
